@@ -75,6 +75,10 @@ class ClassInfo:
         return f"<class {self.qual}>"
 
 
+# documented constants of the libraries the package uses (trusted base)
+LIBRARY_CONSTANTS = {"Crypto.Cipher.AES.block_size": 16, "hashlib.md5.digest_size": 16, "hashlib.sha256.digest_size": 32}
+
+
 @dataclass
 class FuncInfo:
     name: str
@@ -562,6 +566,8 @@ class Program:
                 if e.attr in mem:
                     return mem[e.attr]
             if isinstance(r, External):
+                if r.name in LIBRARY_CONSTANTS:
+                    return LIBRARY_CONSTANTS[r.name]
                 if r.name in ("Crypto.Cipher.AES.MODE_ECB",):
                     return ("AES", "ECB")
                 if r.name in ("Crypto.Cipher.AES.MODE_CBC",):
